@@ -306,6 +306,15 @@ def record_and_validate(tag, gen, n, count, outdir, base_seed=None, timeout=900,
         if r.returncode != 0:
             raise ToolError(f"[{tag}] primgen failed: {r.stdout[-2000:]}")
         jobs.append((sd, trace, prims))
+        if i == 0:
+            del TRACE_SAMPLES[:]
+            with open(trace) as tf:
+                for k, line in enumerate(tf):
+                    ev = json.loads(line)
+                    if ev.get("ev") not in ("ctx",) and len(TRACE_SAMPLES) < 2:
+                        TRACE_SAMPLES.append({"recorded_event": describe_event(ev), "seed": sd, "raw": line[:700]})
+                    if k > 50:
+                        break
     cfg = os.path.join(outdir, f"{tag}.trace.cfg")
     write_cfg(cfg, {}, postcondition="Accepted")
     running = []
@@ -349,6 +358,9 @@ def record_and_validate(tag, gen, n, count, outdir, base_seed=None, timeout=900,
                     os.remove(extra)
     log(f"[{tag}] {count} recorded traces, {total_events} events validated against Trace_Api.tla, {len(rejections)} rejected")
     return total_events, rejections
+
+
+TRACE_SAMPLES = []
 
 
 def describe_event(ev):
@@ -480,6 +492,9 @@ class Check:
         self.runs.append({"trace_generator": gen, "traces": count, "driver_steps_per_trace": n, "events_validated": events,
                           "rejected": len(rejections), "note": note or ""})
         self.cmds.append(f"harness record --gen {gen} --n {n} (x{count}) | tlc Trace_Api.tla (POSTCONDITION Accepted)")
+        for smp in TRACE_SAMPLES[:1]:
+            if len(self.samples) < 10:
+                self.samples.append({"kind": f"trace:{gen}", "case": smp})
         for r in rejections:
             self.add_failure({"check": check, "detail": f"recorded {gen} trace (seed {r['seed']}): event {r['index']} is not a behaviour the "
                               f"specification allows: {describe_event(r)}", "case": {"kind": "trace", "gen": gen, "seed": r["seed"], "n": n,
